@@ -65,7 +65,8 @@ class Fn:
 
 class Unit:
     def __init__(self, name, prop, prove, use=(), types=(), spec='', preludes=('fax_l0', 'stdspec'), level='L0',
-                 broadcast=('l0',), consts=(), extra_modules='', notes='', rlimit=30, raw_items=(), type_spec='', traits=()):
+                 broadcast=('l0',), consts=(), extra_modules='', notes='', rlimit=30, raw_items=(), type_spec='', traits=(), nra=()):
+        self.nra = list(nra)
         self.traits = list(traits)
         self.consts = list(consts)
         self.type_spec = type_spec
@@ -238,9 +239,14 @@ class Gen:
         text = body
         # function-specific rewrites first (on the expanded text; each needs a justification)
         for old, new, why in fn.rewrites:
-            if text.count(old) < 1:
-                raise AnchorError('%s: rewrite anchor not found: %r' % (p, old))
-            text = text.replace(old, new)
+            if text.count(old) >= 1:
+                text = text.replace(old, new)
+            else:
+                # tolerate the pretty-printer's line breaks: whitespace runs match any whitespace
+                pat = r'\s*'.join(re.escape(tok) for tok in old.split())
+                if not re.search(pat, text):
+                    raise AnchorError('%s: rewrite anchor not found: %r' % (p, old))
+                text = re.sub(pat, lambda _m: new, text)
             log.add('RX(%s)' % why, p, old, new)
         text = rules.r1_assert_eq(text, p, log)
 
@@ -326,6 +332,11 @@ class Gen:
             body_post = ''
             if spec.get('body_end'):
                 body_post = '\n proof { ' + spec['body_end'] + ' }\n'
+            if spec.get('iter_name'):
+                mi = re.compile(r'\sin\s').search(m, ks, bo)
+                if not mi:
+                    raise AnchorError('%s: loop %d is not a `for .. in ..` loop' % (p, k))
+                edits.append((mi.end(), mi.end(), spec['iter_name'] + ': '))
             edits.append((bo, bo + 1, '\n' + '\n'.join(ins) + '\n    {' + body_pre))
             if body_post:
                 edits.append((bc, bc, body_post))
@@ -566,6 +577,8 @@ class Gen:
             parts.append(raw)
         parts.append('// ---- specification text (hand-written: spec fns and lemmas, no executable code) ----')
         parts.append(unit.spec)
+        for lem in unit.nra:
+            parts.append(lem.verus())
         # group functions by impl header
         groups = {}   # header -> (is_trait, assoc, [texts], [fn objects])
         order = []
